@@ -370,6 +370,12 @@ func (o *Once) Do(f func()) {
 		}
 		return
 	}
+	if o.state == 2 {
+		// fast path of a completed Once: an acquire load that can never change
+		// again. Not a scheduling point (the library calls it per pixel row).
+		vsim.Acquire(unsafe.Pointer(o))
+		return
+	}
 	vsim.Yield(vsim.OpOnce, o.oid())
 	if o.state == 2 {
 		vsim.Acquire(unsafe.Pointer(o))
